@@ -56,7 +56,7 @@ CLAIMED = {
         "technique": "deterministic simulation: seeded partitions of a control-line script into polling batches delivered to the real run loop through a channel-backed socket, reference interpreter + final-image oracle (E1); shuttle-scheduled real worker threads over an in-memory stream with seeded segmentation and EOF (E2)",
         "design_ref": "DESIGN.md 5 (C18)",
         "level_text": "seeded exploration of (script x batching x delivery iterations x pause state x host clock) through the real dispatch in Cpu::run, parse_u8, parse_ioport, Socket::pop_messages: a sequence cell must only ever show sent values in order and end at the last one, all pokes/pin levels/pause state must equal the reference interpreter at quiet points, stop must end run() within a bound, and the final memory image must be the initial image plus exactly the poked bytes.",
-        "level_note": "E1 replaces the TCP stream and the two worker threads by channel ends (hook H4); the E2 part (C18N) runs the real Socket::connect and both real worker threads under shuttle's seeded random scheduler over an in-memory stream with seeded chunking, short reads/writes, half-close and process exit: applied lines must be order- and prefix-consistent (all applied when a stop ends the run) and the received byte stream must split and unescape into exactly the emitted messages. One known finding (process exit loses queued messages) is listed in known_findings.json and announced as KNOWN-FINDING",
+        "level_note": "E1 replaces the TCP stream and the two worker threads by channel ends (hook H4); the E2 part (C18N) runs the real Socket::connect and both real worker threads under shuttle's seeded random scheduler over an in-memory stream with seeded chunking, short reads/writes, half-close and process exit: applied lines must be order- and prefix-consistent (all applied when a stop ends the run) and the received byte stream must split and unescape into exactly the emitted messages. Lines that are not UTF-8 on the wire are part of the script grammar. Four defects found by this check were repaired (fix: commits f920072, 7b7b750, b8f91ee, 6d140bc) and are replayed as regressions; no known finding is open",
     },
     "C13": {
         "engine": "des",
